@@ -164,6 +164,10 @@ func (r *replication) replicate(c *conn, req *appendReq) error {
 		var (
 			resultCh = make(chan result, 128)
 			stopCh   = make(chan struct{})
+
+			// set by writer, if it is stopped after writing a request
+			// that is not reported in resultCh. valid once resultCh is closed
+			unreported bool
 		)
 		go func() {
 			defer func() {
@@ -180,6 +184,7 @@ func (r *replication) replicate(c *conn, req *appendReq) error {
 				err := r.writeAppendEntriesReq(c, req, true)
 				select {
 				case <-stopCh:
+					unreported = err == nil
 					return
 				case resultCh <- result{r.nextIndex - 1, err}:
 				}
@@ -206,6 +211,13 @@ func (r *replication) replicate(c *conn, req *appendReq) error {
 
 		drainResps := func() error {
 			for range resultCh {
+				if err := c.readResp(resp, r.deadline()); err != nil {
+					return err
+				}
+			}
+			if unreported {
+				// response of that request also has to be read. otherwise
+				// it is taken as response of next request sent on this conn
 				if err := c.readResp(resp, r.deadline()); err != nil {
 					return err
 				}
